@@ -18,6 +18,13 @@ Clauses
                    rows as the sequence of single execute() calls
   C08.paramstyle   a connection keeps the paramstyle it was created under when snowflake.connector.paramstyle is
                    changed afterwards (cursor made before / after the change, second connection under the new style)
+  C08.history      a binding's effect is the value's own, whatever was bound before: for every ordered pair (a, b) of a
+                   written-out alphabet of values that Python considers equal although they are different data
+                   (1 / True / 1.0 / Decimal('1'), 0 / False / 0.0, Decimal('1.1') / Decimal('1.10'), one instant with
+                   two UTC offsets, equal tuples) and ordinary values, b bound after a - on the same cursor, on another
+                   cursor of the same connection, on another connection (thorough), in one execute, in one executemany
+                   (pairs; triples in thorough) - has exactly (type- and text-strictly) the effect b has on a fresh
+                   instance that bound nothing else (untyped select list, cast to varchar, VARCHAR column)
 
 Not demanded (ambiguous or outside the statement)
   * NaN / Infinity, bytes, the `numeric` paramstyle, lists under qmark (the connector's qmark list = array binding),
@@ -862,11 +869,252 @@ def _ps_case(env, style, pos, fam, v, acc, replay, made, now, when, who):
         acc.violation("C08.paramstyle", cls, detail, dict(replay, who=who))
 
 
-WORK = {"grid": grid, "pairs": pairs, "many": many, "pstyle": pstyle}
+# ---- histories: two (three) bindings one after the other ----------------------------------------------------------------
+# Everything above binds one value per fresh or same-typed context.  State kept between two bindings (a memo of
+# converted literals, a prepared statement that is reused, a type remembered per cursor/connection) only shows when
+# one cursor - or two cursors of one connection, or two connections - bind two *different pieces of data* one after
+# the other, in particular data that Python considers equal (1 == True == 1.0 == Decimal('1'), Decimal('1.1') ==
+# Decimal('1.10'), one instant written with two UTC offsets).  Oracle (differential, on the real code): the effect of
+# binding b after a is exactly the effect of binding b on a fresh instance that never bound anything else, compared
+# type- and text-strictly (repr), at positions where the data's identity is observable (untyped select list, cast to
+# varchar, VARCHAR column read back through raw DuckDB).  Nothing is demanded about what that effect is (the grid
+# does that), only that it is the value's own.
+TZP5 = datetime.timezone(datetime.timedelta(hours=5))
+SEQ = [
+    # equal and hash-equal in Python, different data
+    ("i1", 1), ("true", True), ("f1", 1.0), ("d1", D("1")), ("d1.0", D("1.0")), ("s1", "1"),
+    ("i0", 0), ("false", False), ("f0", 0.0), ("f-0", -0.0), ("d0", D("0")), ("d0.00", D("0.00")), ("s0", "0"), ("empty", ""),
+    ("d1.1", D("1.1")), ("d1.10", D("1.10")), ("f1.1", 1.1), ("s1.1", "1.1"),
+    ("tz_utc", datetime.datetime(2024, 1, 1, 12, 0, 0, tzinfo=UTC)), ("tz+5", datetime.datetime(2024, 1, 1, 17, 0, 0, tzinfo=TZP5)),
+    ("tz-8", datetime.datetime(2024, 1, 1, 4, 0, 0, tzinfo=TZM8)), ("ntz", datetime.datetime(2024, 1, 1, 12, 0, 0)),
+    ("i2^63", 2**63), ("f2^63", float(2**63)),
+    # ordinary values
+    ("null", None), ("i2", 2), ("f2", 2.0), ("sa", "a"), ("sq", "a'"), ("strue", "true"),
+    ("date", datetime.date(2024, 1, 1)), ("ts0", datetime.datetime(2024, 1, 1, 0, 0, 0)), ("time", datetime.time(12, 0, 0)),
+    # sequences for IN (client-side binding only): equal tuples of different data
+    ("t12", (1, 2)), ("ttrue2", (True, 2.0)),
+]  # fmt: skip
+SEQ_QUICK = ["i1", "true", "f1", "d1", "d1.0", "s1", "i0", "false", "f0", "d0", "empty", "d1.1", "d1.10", "f1.1", "tz_utc", "tz+5", "ntz", "null", "i2", "sa", "date", "t12", "ttrue2"]  # fmt: skip
+SEQ3 = ["i1", "true", "f1", "d1", "s1", "i0", "false", "d1.1", "d1.10"]  # executemany windows of three (thorough)
+SEQ_POS = {
+    "sel": lambda p: f"select {p} as v",
+    "selv": lambda p: f"select cast({p} as varchar) as v",
+    "insv": lambda p: f"insert into tg (id, v) values (1, {p})",
+}
+SEQ_POS_ORDER = ["sel", "selv", "insv"]
+
+
+def seq_indexes(tier, style):
+    names = SEQ_QUICK if tier == "quick" else [n for n, _ in SEQ]
+    idx = [i for i, (n, v) in enumerate(SEQ) if n in names]
+    if style == "qmark":  # not demanded: sequences under qmark are array binds
+        idx = [i for i in idx if not isinstance(SEQ[i][1], tuple)]
+    return idx
+
+
+def tclass(v):
+    if v is None:
+        return "null"
+    if isinstance(v, datetime.datetime):
+        return "tstz" if v.tzinfo is not None else "ts"
+    return {bool: "bool", int: "int", float: "float", D: "dec", str: "str", tuple: "tuple", datetime.date: "date", datetime.time: "time"}[type(v)]  # fmt: skip
+
+
+def relation(a, b):
+    """same: the same datum; confusable: equal and hash-equal for Python although different data; distinct."""
+    if type(a) is type(b) and repr(a) == repr(b):
+        return "same"
+    try:
+        return "confusable" if (a == b and hash(a) == hash(b)) else "distinct"
+    except TypeError:
+        return "distinct"
+
+
+def seq_class(hist, pos, style, a, b):
+    return f"hist={hist},pos={pos},bind={bind_kind(style)},first={tclass(a)},second={tclass(b)},rel={relation(a, b)}"
+
+
+def _connect(env):
+    old = _set_module_style(STYLES[env.style][0])
+    try:
+        return env.fs.connect(database="db1", schema="s1")
+    finally:
+        _set_module_style(old)
+
+
+def seq_bind(env, cur, style, pos, v):
+    """Bind v at pos through cur -> (outcome, rows of the VARCHAR target read through raw DuckDB)."""
+    b = Binder(style)
+    sql = SEQ_POS[pos](b.ph(v))
+    env.load("tg", [])
+    out = env.execute(sql, b.params(), cur)
+    return (out, env.read("tg"))
+
+
+def seqbase(item, acc, tier):
+    """item = ('seqbase', style, vi): the value's own effect - a fresh instance that binds nothing but this value, a
+    fresh cursor per position."""
+    _, style, vi = item
+    v = SEQ[vi][1]
+    env = Env(style, "str")
+    try:
+        conn = _connect(env)
+        out = {pos: seq_bind(env, conn.cursor(), style, pos, v) for pos in SEQ_POS_ORDER}
+    finally:
+        env.close()
+    acc.count("statements_executed", len(SEQ_POS_ORDER))
+    acc.obs((style, vi, repr(out)))
+    return out
+
+
+def _stored(base_v):
+    """the VARCHAR text a single INSERT of the value stores (None if that INSERT does not succeed)"""
+    out, tg = base_v["insv"]
+    if out[0] == "ok" and len(tg) == 1:
+        return (tg[0][1],)
+    return None
+
+
+def seq_pair(env, style, ai, bi, base, acc, tier, replay):
+    """All histories 'a was bound before b' for one ordered pair, on one fresh connection (and a second one)."""
+    a, b = SEQ[ai][1], SEQ[bi][1]
+    n = 0
+    conn = _connect(env)
+    conn2 = _connect(env) if tier != "quick" else None
+
+    def verdict(hist, pos, got, want, extra):
+        nonlocal n
+        n += 1
+        acc.count("evaluations")
+        acc.obs((style, hist, pos, ai, bi, repr(got)))
+        acc.outcome(("seq", hist, pos, bind_kind(style), repr(got)[:60]))
+        if ai != bi:
+            acc.nontrivial((style, hist, pos, ai, bi))
+        cls = seq_class(hist, pos, style, a, b)
+        failed = repr(got) != repr(want)
+        acc.member("C08.history", cls, failed)
+        if failed:
+            detail = dict(extra, style=style, history=hist, position=pos, first=[SEQ[ai][0], a], second=[SEQ[bi][0], b],
+                          observed=got, own_effect_on_a_fresh_instance=want)  # fmt: skip
+            acc.violation("C08.history", cls, detail, dict(replay, hist=hist, pos=pos))
+
+    try:
+        # one cursor binds a, then b
+        cur = conn.cursor()
+        first = seq_bind(env, cur, style, "sel", a)
+        acc.count("statements_executed")
+        verdict("same_cursor", "first", first, base[ai]["sel"], {"note": "effect of the first binding on a new cursor"})
+        for pos in SEQ_POS_ORDER:
+            verdict("same_cursor", pos, seq_bind(env, cur, style, pos, b), base[bi][pos], {"sql": SEQ_POS[pos]("<p>")})
+            acc.count("statements_executed")
+        # two cursors of the same connection
+        c1, c2 = conn.cursor(), conn.cursor()
+        seq_bind(env, c1, style, "sel", a)
+        acc.count("statements_executed")
+        for pos in SEQ_POS_ORDER:
+            verdict("two_cursors", pos, seq_bind(env, c2, style, pos, b), base[bi][pos], {"sql": SEQ_POS[pos]("<p>")})
+            acc.count("statements_executed")
+        # two connections of the same instance (thorough)
+        if conn2 is not None:
+            seq_bind(env, conn.cursor(), style, "sel", a)
+            c3 = conn2.cursor()
+            acc.count("statements_executed")
+            for pos in SEQ_POS_ORDER:
+                verdict("two_conns", pos, seq_bind(env, c3, style, pos, b), base[bi][pos], {"sql": SEQ_POS[pos]("<p>")})
+                acc.count("statements_executed")
+        if not isinstance(a, tuple) and not isinstance(b, tuple):
+            # one execute binding both
+            sa, sb = base[ai]["sel"][0], base[bi]["sel"][0]
+            if sa[0] == "ok" and sb[0] == "ok" and len(sa[1]) == 1 and len(sb[1]) == 1:
+                bd = Binder(style)
+                sql = f"select {bd.ph(a, 'a')} as a, {bd.ph(b, 'b')} as b"
+                got = env.execute(sql, bd.params(), conn.cursor())
+                acc.count("statements_executed")
+                verdict("one_execute", "sel2", got, ("ok", [(sa[1][0][0], sb[1][0][0])]), {"sql": sql, "params": bd.params()})
+            # one executemany binding a's row, then b's row
+            sta, stb = _stored(base[ai]), _stored(base[bi])
+            if sta is not None and stb is not None:
+                got = seq_many(env, style, conn.cursor(), [(101, a), (102, b)])
+                verdict("executemany", "insv", got, (("ok",), [(101, sta[0]), (102, stb[0])]), {"sets": [(101, a), (102, b)]})
+    finally:
+        for c in (conn, conn2):
+            if c is not None:
+                try:
+                    c.close()
+                except Exception:  # noqa: BLE001
+                    pass
+    return n
+
+
+def seq_many(env, style, cur, sets):
+    from mc.util import exc_info
+
+    kind = STYLES[style][1]
+    bd = Binder(style)
+    sql = f"insert into tg (id, v) values ({bd.ph(0, 'i')}, {bd.ph(0, 'v')})"
+    seqparams = [{"i": i, "v": v} if kind == "dict" else STYLES[style][2]((i, v)) for i, v in sets]
+    env.load("tg", [])
+    try:
+        cur.executemany(sql, seqparams)
+        out = ("ok",)
+    except Exception as e:  # noqa: BLE001
+        x = exc_info(e)
+        out = ("err", x[1], x[4][:120])
+    return (out, env.read("tg"))
+
+
+def seq(item, acc, tier):
+    """item = ('seq', style, bi, base): every first value a of the tier's alphabet before the second value b."""
+    _, style, bi, base = item
+    env = Env(style, "str")
+    n = 0
+    try:
+        for ai in seq_indexes(tier, style):
+            n += seq_pair(env, style, ai, bi, base, acc, tier, {"kind": "seq", "style": style, "ai": ai, "bi": bi, "tier": tier})  # fmt: skip
+    finally:
+        env.close()
+    acc.sample({"item": ["seq", style, SEQ[bi][0]], "second_bindings_checked": n})
+    return n
+
+
+def seq3(item, acc, tier):
+    """item = ('seq3', style, ai, base): one executemany over every ordered triple (a, b, c) of SEQ3 starting with a."""
+    _, style, ai, base = item
+    idx = [i for i, (nm, _) in enumerate(SEQ) if nm in SEQ3]
+    env = Env(style, "str")
+    n = 0
+    try:
+        for bi in idx:
+            for ci in idx:
+                conn = _connect(env)
+                sets = [(101, SEQ[ai][1]), (102, SEQ[bi][1]), (103, SEQ[ci][1])]
+                want = (("ok",), [(k, _stored(base[i])[0]) for (k, _), i in zip(sets, (ai, bi, ci))])
+                got = seq_many(env, style, conn.cursor(), sets)
+                conn.close()
+                n += 1
+                acc.count("evaluations")
+                acc.count("statements_executed", 3)
+                acc.obs((style, ai, bi, ci, repr(got)))
+                acc.nontrivial((style, "seq3", ai, bi, ci))
+                rels = sorted({relation(x[1], y[1]) for x in sets for y in sets if x is not y})
+                cls = f"hist=executemany3,pos=insv,bind={bind_kind(style)},types={'+'.join(sorted({tclass(v) for _, v in sets}))},rel={'+'.join(rels)}"
+                failed = repr(got) != repr(want)
+                acc.member("C08.history", cls, failed)
+                if failed:
+                    detail = {"style": style, "history": "executemany3", "sets": sets, "observed": got, "rows_each_value_stores_on_its_own": want}  # fmt: skip
+                    acc.violation("C08.history", cls, detail, {"kind": "seq3", "style": style, "ai": ai, "bi": bi, "ci": ci})
+    finally:
+        env.close()
+    return n
+
+
+WORK = {"grid": grid, "pairs": pairs, "many": many, "pstyle": pstyle, "seqbase": seqbase, "seq": seq, "seq3": seq3}
 
 
 def work(item, acc, tier):
     item = tuple(item)
+    if item[0] in ("seq", "seq3") and not isinstance(item[3], dict):
+        raise core.HarnessError(f"{item[0]} item without its table of own effects")
     import snowflake.connector as sc
 
     before = sc.paramstyle
@@ -911,18 +1159,32 @@ def run(ctx: core.Ctx):
         "against a Python model (matching positions: a deviation is reported only if the same statement with the "
         "value delivered as column data does not show it); plus all ordered pairs of strings in two adjacent placeholders (select / insert) x 4 "
         "styles; executemany (insert / update) over 0, 1 and 3 parameter sets x family x style; paramstyle changed "
-        "after connect (made under 3 x changed to 3 others incl. numeric x cursor made before/after x 7 cases, plus a second connection under the new value). Quick tier: strings reduced to the breaker list except at "
+        "after connect (made under 3 x changed to 3 others incl. numeric x cursor made before/after x 7 cases, plus a second connection under the new value); "
+        "histories: all ordered pairs (a, b) of the value alphabet SEQ (Python-equal but different data, and ordinary values) x 4 styles, b bound after a on "
+        "the same cursor / a second cursor / a second connection (thorough) at 3 identity-revealing positions, in one execute, in one executemany "
+        "(thorough: all ordered triples of 9 values), each compared by repr with b's own effect on a fresh instance. Quick tier: strings reduced to the breaker list except at "
         "positions sel/ins/where/like_pat/comment_lit, pairs over the breaker list. Non-trivial = case whose value is "
         "not NULL/empty/zero (value positions) or whose expected row set is non-empty (matching positions)."
     )
     ctx.assumptions = [
         "ground truth is read and fixtures are loaded through a raw DuckDB cursor that bypasses fakesnow",
         "a fresh instance is built after every case that deviates in any way, so cases cannot influence each other",
+        "histories: a fresh connection per ordered pair on a fresh instance per second value; the reference effect of a value is taken on a fresh instance that binds only that value",
         "the reference renderer/reader/LIKE evaluator are unit-tested against hand-written Snowflake constants in selftest/test_c08.py",
         "see module docstring for what is not demanded",
     ]
     items = items_for(ctx.tier)
     res = ctx.pmap(work, items, chunk=1)
+    # histories: first every value's own effect (fresh instance each), then every ordered pair against it
+    base_items = [("seqbase", style, vi) for style in STYLE_ORDER for vi in seq_indexes(ctx.tier, style)]
+    base = {style: {} for style in STYLE_ORDER}
+    for it, out in ctx.pmap(work, base_items, chunk=1):
+        base[it[1]][it[2]] = out
+    seq_items = [("seq", style, bi, base[style]) for style in STYLE_ORDER for bi in seq_indexes(ctx.tier, style)]
+    if ctx.tier != "quick":
+        seq_items += [("seq3", style, ai, base[style]) for style in STYLE_ORDER for ai, (nm, _) in enumerate(SEQ) if nm in SEQ3]
+    res = res + ctx.pmap(work, seq_items, chunk=1)
+    items = items + base_items + seq_items
     ctx.exhaustive = True
     kinds = {}
     for it, n in res:
@@ -933,6 +1195,8 @@ def run(ctx: core.Ctx):
         "strings": len(STR), "string_breakers": len(STR_BREAKERS), "values_per_family": {f: len(FAMS[f].values) for f in FAM_ORDER},
         "positions": POS_ORDER, "styles": STYLE_ORDER, "pair_alphabet": len(pair_values(ctx.tier)),
         "executemany_set_sizes": [0, 1, 3], "module_paramstyles": MODULE_STYLES,
+        "history_values": [SEQ[i][0] for i in seq_indexes(ctx.tier, "pyformat_seq")], "history_positions": SEQ_POS_ORDER,
+        "history_modes": ["same_cursor", "two_cursors", "one_execute", "executemany"] + ([] if ctx.tier == "quick" else ["two_conns", "executemany3"]),
     }  # fmt: skip
     ctx.extra["bound"] = "full product of the written-out alphabets for this tier"
 
@@ -965,12 +1229,24 @@ def replay(payload):
             env.close()
     elif k == "pstyle":
         work(("pstyle", r["made"], r["now"], r["when"]), acc, "quick")
+    elif k in ("seq", "seq3"):
+        idx = [r["ai"], r["bi"]] + ([r["ci"]] if k == "seq3" else [])
+        base = {vi: seqbase(("seqbase", r["style"], vi), core.Acc(), "thorough") for vi in sorted(set(idx))}
+        if k == "seq":
+            env = Env(r["style"], "str")
+            try:
+                seq_pair(env, r["style"], r["ai"], r["bi"], base, acc, r["tier"], r)
+            finally:
+                env.close()
+        else:
+            full = {i: base.get(i) or base[r["ai"]] for i in range(len(SEQ))}  # only the triple's own entries are read
+            seq3(("seq3", r["style"], r["ai"], full), acc, "thorough")
     else:
         raise core.HarnessError(f"unknown replay kind {k}")
     want = (payload["clause"], payload["class"])
     hit = want in acc.viol
     for (clause, cls), v in sorted(acc.viol.items()):
-        if (clause, cls) == want or k != "pstyle":
+        if (clause, cls) == want or k not in ("pstyle", "seq3"):
             print(f"{clause} / {cls}")
             print(json.dumps(v["detail"], indent=1, sort_keys=True, default=repr)[:4000])
     print("verdict:", "VIOLATION reproduced" if hit else "ok (not reproduced)")
